@@ -268,6 +268,29 @@ func checkResponse(st *loadStats, l string, q, resp []byte) {
 	st.ok.Add(1)
 }
 
+// one query over a stream listener; a frame whose length octets are poison is reported as such at once
+func c20StreamQuery(port int, wire []byte, timeout time.Duration) ([][]byte, string) {
+	c, err := net.DialTimeout("tcp", fmt.Sprintf("127.0.0.1:%d", port), time.Second)
+	if err != nil {
+		return nil, "dial-error"
+	}
+	defer c.Close()
+	c.Write(c20Frame(wire))
+	c.SetReadDeadline(time.Now().Add(timeout))
+	var h [2]byte
+	if _, err := io.ReadFull(c, h[:]); err != nil {
+		return nil, "no-response"
+	}
+	if h[0] == c20Poison && h[1] == c20Poison {
+		return nil, "poison"
+	}
+	body := make([]byte, binary.BigEndian.Uint16(h[:]))
+	if _, err := io.ReadFull(c, body); err != nil {
+		return nil, "short-frame"
+	}
+	return [][]byte{body}, "ok"
+}
+
 func runOwnLoad(id string, parts []string) string {
 	f := hx.Fields(parts)
 	if f["race"] == "1" && !raceEnabled {
@@ -312,16 +335,29 @@ func runOwnLoad(id string, parts []string) string {
 			cfg.Rules = append(cfg.Rules, router.RuleConfig{Domain: fmt.Sprintf("set%d", i), Forward: fmt.Sprintf("up%d", i)})
 		}
 		cfg.Cache.MemSize = hx.MustAtoi(f["cache"])
-		env := &hx.RouterEnv{Ports: map[string]int{}}
-		for _, k := range hx.ListenerKinds {
-			p := hx.FreePort()
-			env.Ports[k] = p
-			sc := router.ServerConfig{Tag: k, Protocol: k, Listen: fmt.Sprintf("127.0.0.1:%d", p)}
-			cfg.Servers = append(cfg.Servers, sc)
+		// listeners on free loopback ports; another check may grab a port between FreePort and listen, and a failing
+		// start-up of the pinned router can panic (D13, C18's business): retry with fresh ports
+		var env *hx.RouterEnv
+		var r *router.VerifRouter
+		for attempt := 0; attempt < 6 && r == nil; attempt++ {
+			env = &hx.RouterEnv{Ports: map[string]int{}}
+			cfg.Servers = nil
+			for _, k := range hx.ListenerKinds {
+				p := hx.FreePort()
+				env.Ports[k] = p
+				cfg.Servers = append(cfg.Servers, router.ServerConfig{Tag: k, Protocol: k, Listen: fmt.Sprintf("127.0.0.1:%d", p)})
+			}
+			func() {
+				defer func() {
+					if rec := recover(); rec != nil {
+						err = fmt.Errorf("router start panicked: %v", rec)
+					}
+				}()
+				r, err = router.VerifRun(cfg)
+			}()
 		}
-		r, err := router.VerifRun(cfg)
-		if err != nil {
-			return "HARNESS-ERROR router: " + strings.ReplaceAll(err.Error(), " ", "_")
+		if r == nil {
+			return "HARNESS-ERROR router: " + strings.ReplaceAll(fmt.Sprint(err), " ", "_")
 		}
 		for _, k := range []string{"tcp", "gnet", "http", "fasthttp"} {
 			for i := 0; i < 200; i++ {
@@ -361,7 +397,18 @@ func runOwnLoad(id string, parts []string) string {
 						st.lost.Add(1)
 						continue
 					}
-					resps, status := env.Query(l, q, "-", 8*time.Second, 0)
+					var resps [][]byte
+					var status string
+					if l == "tcp" || l == "gnet" {
+						resps, status = c20StreamQuery(env.Ports[l], q, 8*time.Second)
+						if status == "poison" {
+							st.poison.Add(1)
+							st.firstBad.CompareAndSwap(nil, l+" poison frame header (0xdbdb) for q="+hx.Hex(q))
+							continue
+						}
+					} else {
+						resps, status = env.Query(l, q, "-", 8*time.Second, 0)
+					}
 					if status != "ok" || len(resps) == 0 {
 						st.lost.Add(1)
 						continue
